@@ -19,7 +19,7 @@ def _observe(nk):
     import lazy_dataset
     n, k = nk
     keys = [f'k{i:04d}' for i in range(n)]
-    out = {'n': n, 'k': k, 'ok': False, 'shards': [], 'shardeq': True, 'exc': 'none'}
+    out = {'n': n, 'k': k, 'ok': False, 'shards': [], 'shardeq': True, 'stable': True, 'exc': 'none'}
     with warnings.catch_warnings():
         warnings.simplefilter('ignore')
         ds = lazy_dataset.new(list(range(n)))
@@ -38,17 +38,38 @@ def _observe(nk):
         if d_ok != out['ok']:
             out['shardeq'] = False
         if out['ok'] and d_ok:
-            for i in range(len(parts)):
+            # every index: -k-1 .. k+1; as split(k)[i], a negative index counts
+            # from the end and an index outside [-k, k) is refused
+            for i in range(-len(parts) - 1, len(parts) + 2):
+                try:
+                    want = out['shards'][i]
+                except IndexError:
+                    want = None
                 try:
                     sh = [int(x) for x in ds.shard(k, i)]
                     dsh = dd.shard(k, i)
-                    same = (sh == out['shards'][i] and list(dsh) == out['shards'][i]
-                            and list(dsh.keys()) == [keys[j] for j in out['shards'][i]]
-                            and list(dparts[i].keys()) == [keys[j] for j in out['shards'][i]])
+                    same = (want is not None and sh == want and list(dsh) == want
+                            and list(dsh.keys()) == [keys[j] for j in want]
+                            and list(dparts[i].keys()) == [keys[j] for j in want])
                 except BaseException:
-                    same = False
+                    same = want is None
                 if not same:
                     out['shardeq'] = False
+            # the same dataset object asked again after the caller modified the
+            # list it got (the k-fold idiom: folds.pop(f)), and again after reverse()
+            try:
+                for edit in (lambda p: p.pop(), lambda p: p.reverse()):
+                    if parts:
+                        edit(parts)
+                    again = ds.split(k)
+                    if [[int(x) for x in p] for p in again] != out['shards']:
+                        out['stable'] = False
+                    for i in range(len(out['shards'])):
+                        if [int(x) for x in ds.shard(k, i)] != out['shards'][i]:
+                            out['stable'] = False
+                    parts = again
+            except BaseException:
+                out['stable'] = False
         elif not out['ok']:
             # an invalid count must be rejected by shard() as well
             try:
@@ -73,7 +94,7 @@ def run(prop, tier):
             obs = pool.map(_observe, pairs, chunksize=50)
         records = [dict(o, id=i + 1) for i, o in enumerate(obs)]
         verdicts, st = pipeline.validate_records(
-            [{k: r_[k] for k in ('id', 'n', 'k', 'ok', 'shards', 'shardeq')} for r_ in records],
+            [{k: r_[k] for k in ('id', 'n', 'k', 'ok', 'shards', 'shardeq', 'stable')} for r_ in records],
             module='ShardsTrace.tla', cfg='ShardsTrace.cfg', chunk=1500)
         res.add_tlc(st)
     except tlc.TlcError as e:
